@@ -459,6 +459,10 @@ def run(ctx, rep):
         replay_queue(ctx, rep, [1, 2], 1, 4, 2, mode="edges")
         replay_pipe(ctx, rep, 6)
         host_traces(ctx, rep, 4000)
+    # (B') the repository's own tests, traced at the HCI boundary, against specs/Stack/HciMonitor.tla
+    from lib import repotests
+
+    repotests.report(ctx, rep, "C04_")
     rep.exhaustive = not ctx.quick
 
 
